@@ -1,10 +1,10 @@
-BOUNDS = ('formats BMP, PNM, TARGA through FILE* and file name; per query the file length L and the control-flow-deciding header fields are concrete '
+BOUNDS = ('formats BMP, PNM, TARGA through FILE*, file name and std::istream (GIL istream_device over the stream model rt/rt_ios.c: twins of the FILE* queries, BMP pixel-data offset concrete there); per query the file length L and the control-flow-deciding header fields are concrete '
           '(BMP: header size {12,40,108}, bits per pixel {1,4,8,15,16,24,32,other}, compression {0,1,2,3}, width/height <= 5x2 incl. top-down, palette size, '
           'PNM: type P1..P6, the ASCII header text, ASCII sample data (concrete seeded digits), TARGA: image type, bit depth, descriptor, id length, dimensions); '
           'every other byte (offsets, masks, palette entries, run lengths, pixel data, reserved fields) is symbolic; L ranges over every header boundary and truncation point of the variant (quick: a subset)')
-OUTSIDE = ('run-length-coded BMP / TARGA data with *symbolic* packet structure (no verdict within the cap; run-length decoders are covered with concrete packet structure and symbolic colour values, plus fully concrete streams); PNG, JPEG, TIFF (decoding is done by libpng/libjpeg/libtiff, external C libraries outside /repo: not encodable); std::istream devices (not modelled: FILE* and file name only); '
+OUTSIDE = ('run-length-coded BMP / TARGA data with *symbolic* packet structure (no verdict within the cap; run-length decoders are covered with concrete packet structure and symbolic colour values, plus fully concrete streams); PNG, JPEG, TIFF (decoding is done by libpng/libjpeg/libtiff, external C libraries outside /repo: not encodable); std::ostream / stream states other than eof/fail, formatted extraction (PNM through a stream uses get(): modelled); '
            'images larger than 5x2; fully symbolic headers (no verdict: the parser branches on every header byte); I/O errors other than end of file; allocations above 4 KiB succeeding')
-ASSUMPTIONS = ['the FILE* model (rt/rt_file.c) stands for libc: short reads at end of file, ferror() == 0', 'operator new refuses allocations above 4 KiB with std::bad_alloc',
+ASSUMPTIONS = ['the FILE* model (rt/rt_file.c) stands for libc: short reads at end of file, ferror() == 0', 'the std::istream model (rt/rt_ios.c) stands for libstdc++ unformatted input: get/peek/readsome/read/seekg/tellg with eofbit/failbit as in libstdc++, sentry semantics, no badbit', 'operator new refuses allocations above 4 KiB with std::bad_alloc',
                'control-flow-deciding header bytes are enumerated concretely, not symbolically']
 E = dict(read_image=1, info=2, read_view=3, convert_image=4, scanline=5, convert_view=6)
 def bmp_rowbytes(w, bpp): return ((w * bpp + 31) // 32) * 4
@@ -154,6 +154,19 @@ def queries(tier, seed):
             qs.append(Q('targa/read_image/file/rle_%s/L%d' % (sn, L), 'C11/read.cpp', 'h_read', defs=dict(FORMAT=3, ENTRY=E['read_image'], DEV=1, PIX='gil::rgb8_pixel_t'), params=[L] + par, rt=['file'],
                         unwind=140, rt_unwind=L + 4, mem_unwind=400, cdefs=dict(VP_FILE_MAX=L + 8), tier='quick' if L == ds + len(st) else 'thorough', timeout=300,
                         note='run-length structure concrete, colour values symbolic'))
+    # 32-bit pixels: packet byte counts reach 4 * 128 = 512, i.e. beyond one byte
+    tga32_streams = {
+        'valid':      [0x82, S, S, S, S, 0x02, S, S, S, S, S, S, S, S, S, S, S, S],
+        'run64_over': [0xBF, S, S, S, S],            # 64 pixels = 256 bytes into a 24-byte image
+        'max_run':    [0xFF, S, S, S, S],            # 128 pixels = 512 bytes
+        'raw64_over': [0x3F] + [S] * 24,
+    }
+    for sn, st in tga32_streams.items():
+        ds = 18; L = ds + len(st)
+        par = [0, 0, 10, 32, 8, 3, 2, -1, ds, 0, 0, 0, 0, 0] + [len(st)] + st
+        qs.append(Q('targa/read_image/file/rle32_%s/L%d' % (sn, L), 'C11/read.cpp', 'h_read', defs=dict(FORMAT=3, ENTRY=E['read_image'], DEV=1, PIX='gil::rgba8_pixel_t'), params=[L] + par, rt=['file'],
+                    unwind=140, rt_unwind=L + 4, mem_unwind=600, cdefs=dict(VP_FILE_MAX=L + 8), tier='quick', timeout=300,
+                    note='run-length structure concrete, colour values symbolic'))
     import re as _re
     for q in qs:
         if _re.search(r'_c[12]_|/t10_', q.name): q.timeout = 100; q.tier = 'thorough'   # run-length data with symbolic structure: attempts, short cap, never quick
